@@ -86,9 +86,32 @@ def make(rng, cls):
     else:
         raise ValueError(cls)
     pos = np.asarray(pos, float)
-    # random rigid motion so the stored pattern is in no special frame
-    pos = pos.dot(G.random_rotation(rng).T) + rng.uniform(-2, 2, 3)
-    return {"cls": cls, "elements": list(els), "positions": pos, "chiral": chiral, "continuous_symmetry": cont}
+    frame = "random"
+    r = int(rng.integers(3))
+    if r == 0 and len(pos) >= 2:
+        # special frame: the search axis (farthest pair, lower index -> higher index, as the library picks it) lies along a
+        # signed coordinate axis, as for patterns drawn by hand or exported from an editor
+        D = ((pos[:, None, :] - pos[None, :, :]) ** 2).sum(-1)
+        i, j = [int(x) for x in np.unravel_index(np.argmax(D), D.shape)]
+        k = int(rng.integers(3))
+        sgn = 1.0 if rng.integers(2) else -1.0
+        target = sgn * np.eye(3)[k]
+        pos = (pos - pos[i]).dot(G.rotation_taking(pos[j] - pos[i], target).T)
+        pos = pos.dot(G.rotation_about(target, rng.uniform(0, 2 * np.pi)).T)
+        off = pos[j] - np.linalg.norm(pos[j]) * target
+        pos[j] = np.linalg.norm(pos[j]) * target          # exactly on the axis
+        frame = "axis%s%s" % ("+" if sgn > 0 else "-", "xyz"[k])
+        pos = pos + np.round(rng.uniform(-2, 2, 3), 1)
+    elif r == 1:
+        # a proper signed permutation of the axes (exact), no other rotation
+        perms = [np.array(m) for m in ([[1, 0, 0], [0, 1, 0], [0, 0, 1]], [[0, 1, 0], [0, 0, 1], [1, 0, 0]], [[-1, 0, 0], [0, -1, 0], [0, 0, 1]],
+                                       [[0, -1, 0], [1, 0, 0], [0, 0, 1]], [[1, 0, 0], [0, 0, -1], [0, 1, 0]], [[0, 0, 1], [0, -1, 0], [1, 0, 0]])]
+        pos = pos.dot(perms[int(rng.integers(len(perms)))].T.astype(float)) + np.round(rng.uniform(-2, 2, 3), 1)
+        frame = "signed_permutation"
+    else:
+        # random rigid motion so the stored pattern is in no special frame
+        pos = pos.dot(G.random_rotation(rng).T) + rng.uniform(-2, 2, 3)
+    return {"cls": cls, "elements": list(els), "positions": pos, "chiral": chiral, "continuous_symmetry": cont, "frame": frame}
 
 
 def to_atoms(p, id_base=-1.0, **kw):
